@@ -15,6 +15,7 @@ structure NavInv (S : Sem) (c : ECfg S) (Q : Live S.V → Live S.V → Prop) : P
   execute : ∀ pid l, Q (executePassage c pid l).1 l
   mark : ∀ cid l, Q (markEntered c cid l) l
   out : ∀ (l : Live S.V) o, Q { l with out := some o } l
+  cur : ∀ (l : Live S.V) x, Q { l with cur := x } l
   scope : ∀ (l l' : Live S.V) sc, Q l' { l with scopes := sc :: l.scopes } →
     Q { l' with scopes := l'.scopes.tail } l
 
@@ -82,7 +83,14 @@ theorem goto_inv (h : NavInv S c Q) : ∀ (fuel : Nat) (spec : String) (l : Live
   | succ fuel ih =>
     intro spec l
     have hbody : ∀ pid l, Q (gotoBody c (goto c fuel) pid l).1 l := by
-      intro pid l; unfold gotoBody; exact gotoLoop_inv h _ ih _ _ _ _ _ _
+      intro pid l; unfold gotoBody
+      have hl := gotoLoop_inv h _ ih (c.story.passages.length + 1) [] pid [] [] l
+      unfold keepCurOnError
+      split
+      · rename_i l' e he
+        rw [he] at hl
+        exact h.trans (h.cur l' l.cur) hl
+      · exact hl
     unfold goto
     split
     · exact h.refl _
